@@ -320,8 +320,9 @@ func zz4CheckAnnotations(log []zz4E, got []*AnnotationEntry, want []int, label s
 	}
 }
 
-func zz4Shape(tampered bool) (int, int, int, int) {
-	maxN := verif.Bound("entries", 3, 4)
+func zz4Shape(tampered bool) (int, int, int, int) { return zz4ShapeMax(tampered, verif.Bound("entries", 3, 4)) }
+
+func zz4ShapeMax(tampered bool, maxN int) (int, int, int, int) {
 	if tampered {
 		maxN = 3 // the tampered variants keep the 3-entry logs in both tiers
 	}
@@ -550,7 +551,7 @@ func zz4Relevant(ref, want string) bool {
 }
 
 func zz4RangeHarness(tampered bool) {
-	n, legacy, tamper, tpos := zz4Shape(tampered)
+	n, legacy, tamper, tpos := zz4ShapeMax(tampered, 3) // range queries keep the 3-entry logs in both tiers
 	store, log := zz4Build(n, legacy, tamper, tpos)
 	first := verif.Concrete(verif.IntRange("first", 0, n-1))
 	last := verif.Concrete(verif.IntRange("last", 0, n-1))
